@@ -11,7 +11,7 @@ from checks import distlib
 
 
 def main(tier=None):
-    c = Check("C09", ["Wasp.Properties.C09"], tier)
+    c = Check("C09", ["Wasp.Properties.C09", "Wasp.Properties.Facts.C09"], tier)
     c.build()
     rng = c.rng
     samples = []
